@@ -61,6 +61,13 @@ def eval_case(case):
     if k == 'rated':
         lists, role, opts = case['lists'], case['role'], case['opts']
         spec = {'banner': case.get('banner', 'SSH-2.0-OpenSSH_9.0'), 'kex': lists['kex'], 'key': lists['key'], 'enc': lists['enc'], 'mac': lists['mac']}
+        other = case.get('other')
+        if other:
+            # the two directions advertise different ciphers / MACs; lists[...] is the direction of the audited role
+            if role == 'server':
+                spec.update(enc_c=other['enc'], mac_c=other['mac'])
+            else:
+                spec.update(enc=other['enc'], mac=other['mac'], enc_c=lists['enc'], mac_c=lists['mac'])
         peer = fakenet.Server(spec)
         net = fakenet.FakeNet()
         if role == 'server':
@@ -79,9 +86,24 @@ def eval_case(case):
         nt = later_lower or js or '-l' in opts
         if r.exc or r.hang:
             fails.append([drive.crash_sig(r) if r.exc else 'hang', r.brief()])
-        elif r.code != want:
+        elif r.code != want and not other:      # (with different directions the reference would have to pick one: there only the relation below is judged)
             sig = 'exit-status-%d-instead-of-%d' % (r.code, want)
-            fails.append([sig, 'opts %r role %s lists %r: exit %d, worst finding says %d (%r)' % (opts, role, lists, r.code, want, why[:4])])
+            fails.append([sig, 'opts %r role %s lists %r%s: exit %d, worst finding says %d (%r)' % (opts, role, lists, ' other direction %r' % other if other else '', r.code, want, why[:4])])
+        else:
+            # the status against the findings of the very report that was printed (every name known to the table, so that
+            # text and JSON word their findings alike; no minimum level, so that nothing is hidden)
+            all_known = all(n == '' or refmodel.db_lookup(db, c, n) is not None for c in CATS for n in lists[c] + ((other or {}).get(c) or []))
+            if all_known and '-l' not in opts and r.code in (0, 2, 3):
+                try:
+                    finds = report.JsonReport(json.loads(r.out)).findings() if js else report.TextReport(r.out, verbose='-v' in opts).findings()
+                    sevs = {sev for _, n, sev, _ in finds if n != ''}       # (JSON keeps an entry for an empty list element)
+                    in_report = 3 if 'fail' in sevs else (2 if 'warn' in sevs else 0)
+                    if in_report != r.code:
+                        fails.append(['exit-status-%d-but-worst-finding-in-the-report-is-%d' % (r.code, in_report), 'opts %r role %s lists %r%s' % (opts, role, lists, ' other direction %r' % other if other else '')])
+                except ValueError:
+                    fails.append(['json-unparseable', r.out[-200:]])
+        if other:
+            cl.append('asymmetric-directions')
         return mkres(case, nt=nt, classes=cl, fails=fails)
     if k == 'broken':
         opts = case['opts']
@@ -231,6 +253,14 @@ def strat_rated():
         lambda t: {'kind': 'rated', 'lists': t[0], 'role': t[1], 'opts': t[3] + t[2]})
 
 
+def strat_rated_asym():
+    """Peers whose two directions advertise different ciphers and MACs, the worst finding sitting in one direction only."""
+    def build(t):
+        a, b, role, opts, color = t
+        return {'kind': 'rated', 'lists': a, 'other': {'enc': b['enc'], 'mac': b['mac']}, 'role': role, 'opts': color + opts}
+    return st.tuples(st.one_of(gens.rated_peer(), gens.all_clean_peer()), st.one_of(gens.rated_peer(), gens.all_clean_peer(), gens.all_clean_peer()), st.sampled_from(['server', 'client', 'client']), st.sampled_from(OPTION_SETS), st.sampled_from(COLOR)).filter(lambda t: (t[0]['enc'], t[0]['mac']) != (t[1]['enc'], t[1]['mac'])).map(build)
+
+
 def strat_unknown_mix():
     """warn-only through unknown names, single-category peers, gss names."""
     def build(t):
@@ -303,6 +333,7 @@ def run(ctx):
     n = 15000 if ctx.quick else 150000
     ctx.hyp('strat_rated', n, label=1)
     ctx.hyp('strat_unknown_mix', 3000 if ctx.quick else 30000, label=2)
+    ctx.hyp('strat_rated_asym', 3000 if ctx.quick else 30000, label=9)
     ctx.hyp('strat_empty_names', 3000 if ctx.quick else 30000, label=3)
     bc = broken_cases(False)     # every truncation offset in both tiers (cheap)
     ctx.map(bc)
